@@ -136,4 +136,60 @@ theorem cmpBytes_trans (a b c : Bytes) : cmpBytes a b = -1 → cmpBytes b c = -1
               · simp only [hxz, hzx, if_false] at h2 ⊢
                 exact ih ys zs h1 h2
 
+/-! ### decimal rendering round trip -/
+
+theorem digitsVal_append_single (ds : Bytes) (d : UInt8) :
+    digitsVal (ds ++ [d]) = digitsVal ds * 10 + (d.toNat - 48) := by
+  simp [digitsVal, List.foldl_append]
+
+theorem isDigit_ofNat (k : Nat) (h : k < 10) : isDigit (UInt8.ofNat (48 + k)) = true := by
+  have : ∀ k, k < 10 → isDigit (UInt8.ofNat (48 + k)) = true := by decide
+  exact this k h
+
+theorem toNat_ofNat_digit (k : Nat) (h : k < 10) : (UInt8.ofNat (48 + k)).toNat - 48 = k := by
+  have : ∀ k, k < 10 → (UInt8.ofNat (48 + k)).toNat - 48 = k := by decide
+  exact this k h
+
+theorem natToDecFuel_spec (f n : Nat) (h : n < 10 ^ (f + 1)) :
+    natToDecFuel (f + 1) n ≠ [] ∧ (natToDecFuel (f + 1) n).all isDigit = true ∧
+      digitsVal (natToDecFuel (f + 1) n) = n := by
+  induction f generalizing n with
+  | zero =>
+    have hn : n < 10 := by simpa using h
+    unfold natToDecFuel
+    rw [if_pos hn]
+    refine ⟨List.cons_ne_nil _ _, ?_, ?_⟩
+    · rw [List.all_cons, List.all_nil, Bool.and_true]; exact isDigit_ofNat n hn
+    · unfold digitsVal
+      rw [List.foldl_cons, List.foldl_nil, toNat_ofNat_digit n hn]; omega
+  | succ f ih =>
+    unfold natToDecFuel
+    by_cases hn : n < 10
+    · rw [if_pos hn]
+      refine ⟨List.cons_ne_nil _ _, ?_, ?_⟩
+      · rw [List.all_cons, List.all_nil, Bool.and_true]; exact isDigit_ofNat n hn
+      · unfold digitsVal
+        rw [List.foldl_cons, List.foldl_nil, toNat_ofNat_digit n hn]; omega
+    · rw [if_neg hn]
+      have hdiv : n / 10 < 10 ^ (f + 1) := by
+        rw [Nat.pow_succ] at h
+        exact Nat.div_lt_of_lt_mul (by omega)
+      obtain ⟨h1, h2, h3⟩ := ih (n / 10) hdiv
+      have hm : n % 10 < 10 := Nat.mod_lt _ (by omega)
+      refine ⟨by intro h0; exact absurd (List.append_eq_nil_iff.mp h0).2 (List.cons_ne_nil _ _), ?_, ?_⟩
+      · rw [List.all_append, h2, Bool.true_and, List.all_cons, List.all_nil, Bool.and_true]
+        exact isDigit_ofNat _ hm
+      · rw [digitsVal_append_single, h3, toNat_ofNat_digit _ hm]
+        omega
+
+theorem lt_ten_pow_succ (n : Nat) : n < 10 ^ (n + 1) := by
+  have h1 : n < 10 ^ n := Nat.lt_pow_self (by omega)
+  have h2 : 10 ^ n ≤ 10 ^ (n + 1) := Nat.pow_le_pow_right (by omega) (by omega)
+  omega
+
+/-- the decimal rendering is a non-empty digit string that reads back as the number -/
+theorem natToDec_spec (n : Nat) :
+    natToDec n ≠ [] ∧ (natToDec n).all isDigit = true ∧ digitsVal (natToDec n) = n :=
+  natToDecFuel_spec n n (lt_ten_pow_succ n)
+
 end Mpd
